@@ -550,6 +550,15 @@ fn main() {
         let d = cx.feed::<Transaction>(&b, "oversize transaction");
         cx.rec.count(&format!("tx-len:{l}:{}", matches!(d, Dec::Ok { .. })));
     }
+    // trailing bytes after a message that fills a whole datagram (a decoder that only looks at the first MTU bytes
+    // would accept them): the accepted 1500-byte transaction followed by 1 .. 600 further bytes
+    for extra in [1usize, 7, 8, 64, 600] {
+        let mut b = Transaction(rng.bytes(MTU_BYTES - 8)).ser();
+        let full = matches!(cx.feed::<Transaction>(&b, "datagram-filling transaction"), Dec::Ok { .. });
+        b.extend(rng.bytes(extra));
+        let d = cx.feed::<Transaction>(&b, "datagram-filling transaction + trailing bytes");
+        cx.rec.oracle(!matches!(d, Dec::Ok { .. }), "c19-trailing-bytes-accepted", || format!("tx: a {}-byte input whose first {MTU_BYTES} bytes are a complete message (accepted alone: {full}) is accepted with {extra} trailing bytes", b.len()));
+    }
     cx.rec.end_case(cx.class, cx.oks > 0 && cx.errs > 0);
 
     // ---------------------------------------------------------------- arbitrary byte strings
